@@ -113,7 +113,8 @@ class FixedAgent(Agent, FixedCell):
 
         # fixme we leave self._mesa_cell on the original value
         #  so you cannot hijack remove() to move patches
-        if self.cell is not None:
+        if self.cell is not None and self in self.cell.agents:
+            # the cell is kept, so a second remove() must not take the agent off its cell again
             self.cell.remove_agent(self)
 
 
